@@ -79,7 +79,7 @@ func c18UserKey() *ethsecp256k1.PrivKey {
 // c18NewChain: InitChain with one genuine bonded validator (so that the exported staking
 // state can be imported again), a funded user, bond denom = mint denom = coinswap standard
 // denom = EVM denom = acanto, the given epochs_per_period of inflation, and the given (non-zero) genesis time.
-func c18NewChain(genTime time.Time, epp int64) *c18Chain {
+func c18NewChain(genTime time.Time, epp int64, ident string) *c18Chain {
 	ch := &c18Chain{a: c18NewApp(), priv: c18UserKey(), now: genTime, h: 1}
 	a := ch.a
 	ch.user = common.BytesToAddress(ch.priv.PubKey().Address().Bytes())
@@ -131,6 +131,9 @@ func c18NewChain(genTime time.Time, epp int64) *c18Chain {
 	var inf inflationtypes.GenesisState
 	cdc.MustUnmarshalJSON(gs[inflationtypes.ModuleName], &inf)
 	inf.EpochsPerPeriod = epp
+	if ident != "" {
+		inf.EpochIdentifier = ident
+	}
 	gs[inflationtypes.ModuleName] = cdc.MustMarshalJSON(&inf)
 
 	bz, err := json.Marshal(gs)
